@@ -61,6 +61,12 @@ def register(R):
                 forall([k, l], Implies(And(k >= 0, k < l, l < rows.len()), And(at(rows, k) != at(rows, l), at(cols, k) != at(cols, l))))]
     R.lib("scipy.optimize.linear_sum_assignment", lsa_axioms)
 
+    # the cost the built-in dispatcher minimises is the h3 grid distance between the two entities
+    R.attr("EntityABC", "geoid", StrT)
+    hk = AO + "h3_distance_cost"
+    hs = R.spec(hk, arg_types={"a": ENT, "b": ENT}, ret=RealT)
+    hs.ensures("is_the_grid_distance", lambda a, r: r == uf("h3.h3_distance")(iface("EntityABC", "geoid", StrT)(a.a), iface("EntityABC", "geoid", StrT)(a.b)), P)
+
     key = AO + "find_assignment"
     s = R.spec(key, arg_types={"assignees": ENTS, "targets": ENTS, "cost_fn": COST}, ret=SOL)
     inf, ninf = Sym(RealT, POS_INF), Sym(RealT, NEG_INF)
